@@ -16,7 +16,7 @@ def _rank_median(S, o, vals):
     return z3.And(2 * le >= n, 2 * ge >= n, z3.If(n % 2 == 1, isval, ismean))
 
 
-def _mk_map(S, EX, R, C, stripe, seed, name='d', tagged=False):
+def _mk_map(S, EX, R, C, stripe, seed, name='d', tagged=False, invalid_upto=0):
     """disparity map: fully symbolic, or concrete pseudo-random with a symbolic column/row stripe (block-boundary shapes)"""
     rng = np.random.RandomState(seed)
     if stripe is None:
@@ -27,6 +27,7 @@ def _mk_map(S, EX, R, C, stripe, seed, name='d', tagged=False):
         ax, lo, hi = stripe
         base = rng.randint(-8, 9, size=(R, C)).astype(np.float32) / 4
         mb = np.where(rng.rand(R, C) < 0.15, np.uint16(1), np.uint16(0)).astype(np.uint16)
+        mb[:, :invalid_upto] = 1            # a fully invalid leading region (whole processing blocks without any valid pixel)
         d = S.SymArray(base, 'x4'); m = S.SymArray(mb, 'u2')
         sub = (R, hi - lo) if ax == 1 else (hi - lo, C)
         ds_ = S.fresh_array(name, sub, 'x4', scale=4, tagged=tagged, tags=(0, 1)); ms_ = S.fresh_array(name + 'm', sub, 'u2')
@@ -46,7 +47,7 @@ def _mk_map(S, EX, R, C, stripe, seed, name='d', tagged=False):
     return d, m, shp, sym
 
 
-def median(R=3, C=3, fs=3, stripe=None, seed=0, cap=60, block=()):
+def median(R=3, C=3, fs=3, stripe=None, seed=0, cap=60, block=(), invalid_upto=0):
     import xarray as xr
     from vf import symnp as S, instr
     from vf.explore import EX, explore
@@ -59,12 +60,12 @@ def median(R=3, C=3, fs=3, stripe=None, seed=0, cap=60, block=()):
     rad = fs // 2
 
     def h():
-        d, m, shp, sym = _mk_map(S, EX, R, C, stripe, seed)
+        d, m, shp, sym = _mk_map(S, EX, R, C, stripe, seed, invalid_upto=invalid_upto)
         col.shapes = {'d': (shp[0], 'x4'), 'dm': (shp[1], 'u2')}
         d0 = d.copy(); m0 = m.copy()
         ds = xr.Dataset({"disparity_map": (["row", "col"], d), "validity_mask": (["row", "col"], m)}, coords={"row": np.arange(R), "col": np.arange(C)})
         f = AbstractFilter(cfg={"filter_method": "median", "filter_size": fs})
-        ex = {'filter': 'median', 'R': R, 'C': C, 'fs': fs, 'stripe': stripe, 'seed': seed}
+        ex = {'filter': 'median', 'R': R, 'C': C, 'fs': fs, 'stripe': stripe, 'seed': seed, 'invalid_upto': invalid_upto}
         try:
             f.filter_disparity(ds)
         except S.Unsupported:
@@ -192,6 +193,7 @@ def replay(cex):
             ax, lo, hi = x['stripe']
             d = rng.randint(-8, 9, size=(R, C)).astype(np.float32) / 4
             m = np.where(rng.rand(R, C) < 0.15, np.uint16(1), np.uint16(0)).astype(np.uint16)
+            m[:, :x.get('invalid_upto', 0)] = 1
             sub = (R, hi - lo) if ax == 1 else (hi - lo, C)
             if ax == 1:
                 d[:, lo:hi] = np.array(inp['d'], np.float32).reshape(sub); m[:, lo:hi] = np.array(inp['dm'], np.uint16).reshape(sub)
